@@ -10,7 +10,25 @@ use crate::refmodel::read;
 use crate::refmodel::repr::{self, Verdict, WErr};
 use crate::refmodel::wire;
 
-fn buffer_lengths(n: usize, idx: u64, all: bool) -> Vec<usize> {
+/// which buffer lengths a case is crossed with
+#[derive(Clone, Copy, PartialEq, Eq)]
+enum Bufs {
+    /// every length 0..=n+8 (small spaces, n <= 128), else the boundary lengths
+    All,
+    /// the boundary lengths {0,1,n-4,n-1,n,n+1,n+8} plus one index-rotated length
+    Boundary,
+    /// {n-1, n, n+8}: the second (probed) realisation of a configuration, whose buffer behaviour the first
+    /// realisation has already been crossed with
+    Exact,
+}
+
+fn buffer_lengths(n: usize, idx: u64, bufs: Bufs) -> Vec<usize> {
+    if bufs == Bufs::Exact {
+        let mut v = vec![n.saturating_sub(1), n, n + 8];
+        v.dedup();
+        return v;
+    }
+    let all = bufs == Bufs::All;
     if all && n <= 128 {
         (0..=n + 8).collect()
     } else {
@@ -22,7 +40,7 @@ fn buffer_lengths(n: usize, idx: u64, all: bool) -> Vec<usize> {
     }
 }
 
-fn run_targets(ctx: &mut Ctx, spaces: Vec<TargetSpace>, f: impl Fn(&Target, u64, bool, &mut Local) + Sync) {
+fn run_targets(ctx: &mut Ctx, spaces: Vec<TargetSpace>, f: impl Fn(&Target, u64, Bufs, &mut Local) + Sync) {
     for sp in spaces {
         let get = &sp.get;
         let all = sp.all_buffers;
@@ -31,14 +49,14 @@ fn run_targets(ctx: &mut Ctx, spaces: Vec<TargetSpace>, f: impl Fn(&Target, u64,
             l.evals += 1;
             l.states += 1;
             l.sample(|| t.short());
-            f(&t, idx, all, l);
+            f(&t, idx, if all { Bufs::All } else { Bufs::Boundary }, l);
             // every packet-builder configuration is also realised in the probed flavour (the intermediate
             // builder queried after every call), whatever flavour the rotation gave it
             if let Target::Pkt(p, var) = &t {
                 if !var.probe {
                     let tp = Target::Pkt(p.clone(), crate::subject::build::Variant { probe: true, ..*var });
                     l.states += 1;
-                    f(&tp, idx, false, l);
+                    f(&tp, idx, Bufs::Exact, l);
                 }
             }
         });
@@ -75,7 +93,7 @@ pub fn c06(ctx: &mut Ctx) {
     ctx.require_hit("too-small-checked");
 }
 
-fn c06_case(t: &Target, w: &dyn AnyWriter, idx: u64, all: bool, site: &str, l: &mut Local) {
+fn c06_case(t: &Target, w: &dyn AnyWriter, idx: u64, all: Bufs, site: &str, l: &mut Local) {
     l.transitions += 1;
     match w.size() {
         Ok(n) => {
@@ -166,7 +184,7 @@ fn pat_b(i: usize) -> u8 {
     !pat_a(i)
 }
 
-fn c17_case(t: &Target, w: &dyn AnyWriter, idx: u64, all: bool, site: &str, l: &mut Local) {
+fn c17_case(t: &Target, w: &dyn AnyWriter, idx: u64, all: Bufs, site: &str, l: &mut Local) {
     l.transitions += 1;
     let size = w.size();
     let caps = match &size {
